@@ -55,6 +55,7 @@ func main() {
 		oneShotMs = flag.Int("oneshot-ms", 60000, "timeout of the non-incremental portfolio tried after an incremental unknown (0 = off)")
 		oneShot   = flag.String("oneshot", "z3,z3-new,cvc5", "solvers of the non-incremental portfolio")
 		dumpDir   = flag.String("dump", "", "directory for standalone SMT-LIB dumps of portfolio queries")
+		tier      = flag.Int("tier", 0, "0 quick, 1 thorough (verifrt.Tier)")
 		mapOrder  = flag.Bool("maporder", false, "explore map iteration orders")
 	)
 	flag.Parse()
@@ -76,6 +77,10 @@ func main() {
 		os.Exit(2)
 	}
 
+	// the repository needs the go1.25 toolchain; it lives in the module cache of this image
+	if tc := "/root/go/pkg/mod/golang.org/toolchain@v0.0.1-go1.25.0.linux-amd64/bin"; dirExists(tc) {
+		os.Setenv("PATH", tc+":"+os.Getenv("PATH"))
+	}
 	absDir, _ := filepath.Abs(*dir)
 	overlay := map[string][]byte{}
 	pkgDir := filepath.Join(absDir, *pkgPat)
@@ -189,7 +194,7 @@ func main() {
 		c := &interp.Config{
 			Workers: *workers, TimeoutMs: *timeoutMs, MaxSteps: *maxSteps, MaxDepth: *maxDepth, MaxAlloc: *maxAlloc,
 			MaxPaths: *maxPaths, MaxFailures: *maxFail, Solver: *solver, AltSolver: *alt, Verbose: *verbose, SolverLog: *slog,
-			Concrete: conc, MapOrderNondet: *mapOrder, OneShotMs: *oneShotMs, OneShotSolvers: strings.Split(*oneShot, ","), DumpDir: *dumpDir,
+			Concrete: conc, MapOrderNondet: *mapOrder, OneShotMs: *oneShotMs, OneShotSolvers: strings.Split(*oneShot, ","), DumpDir: *dumpDir, Tier: *tier,
 		}
 		if *deadline > 0 {
 			c.Deadline = time.Now().Add(time.Duration(*deadline) * time.Second)
@@ -200,4 +205,9 @@ func main() {
 			e, res.Paths, res.Pruned, len(res.Failures), len(res.Unknowns), len(res.BoundHits), len(res.Unsupported), res.AssertsOK, res.WallS, res.SolverTimeS, res.Incomplete)
 	}
 	emit()
+}
+
+func dirExists(p string) bool {
+	st, err := os.Stat(p)
+	return err == nil && st.IsDir()
 }
